@@ -289,10 +289,12 @@ class Optic:
         if self.aperture.ap_type == 'EPD':
             self.aperture.value *= scale_factor
 
-        # Scale physical apertures
+        # Scale physical apertures and decentres (lengths of the prescription)
         for surface in self.surface_group.surfaces:
             if surface.aperture is not None:
                 surface.aperture.scale(scale_factor)
+            surface.geometry.cs.x *= scale_factor
+            surface.geometry.cs.y *= scale_factor
 
     def draw(self, fields='all', wavelengths='primary', num_rays=3,
              figsize=(10, 4), xlim=None, ylim=None):
